@@ -31,6 +31,14 @@ Stack(u, req, size, rep, rlo, rhi, sp16, inr, userlo) ==
 StackEnd(u, touched, guard, done) ==
     /\ rng[u] # None /\ touched = 1 /\ guard = 1 /\ done = 1
     /\ rng' = [rng EXCEPT ![u] = None] /\ UNCHANGED held
+\* the descriptor of an allocated tasklet: a block of its own, 8-byte aligned, disjoint from every live stack and descriptor
+Desc(u, rlo, rhi, al) ==
+    /\ rng[u] = None /\ rlo < rhi /\ al = 0
+    /\ \A v \in Units : rng[v] # None => Disjoint(<<rlo, rhi>>, rng[v])
+    /\ rng' = [rng EXCEPT ![u] = <<rlo, rhi>>] /\ UNCHANGED held
+DescEnd(u, ran) == rng[u] # None /\ ran = 1 /\ rng' = [rng EXCEPT ![u] = None] /\ UNCHANGED held
+\* summary of a burst of create/free pairs: no descriptor was handed out while it was still in use
+Churn(dup) == dup = 0 /\ UNCHANGED hvars
 Ledger(live, errors) == live = 0 /\ errors = 0 /\ UNCHANGED hvars
 \* a block is handed out to one owner at a time, cache-line aligned, and comes back intact from its owner
 PAlloc(t, h, al) == /\ h \notin DOMAIN held /\ al = 0
